@@ -56,6 +56,9 @@ BOUNDARY_TABLE: list[tuple[str, str, int, dict[int, dict[str, object]]]] = [
     ("repeated-dns", "DNS=a.example;DNS=b.example;Hash=h", 1, {0: {"hash": "h", "dns": ("a.example", "b.example")}}),
     ("blank-elements-skipped", " Hash=a , ,Hash=b ", 2, {0: {"hash": "a"}, 1: {"hash": "b"}}),
     ("keys-case-insensitive", 'HASH=a;subject="CN=x"', 1, {0: {"hash": "a", "subject": "CN=x"}}),
+    # a backslash is an escape only inside a quoted value; outside quotes it is an ordinary byte and the delimiter after it still delimits
+    ("unquoted-backslash-before-comma", "URI=spiffe://x/\\,Hash=h2", 2, {0: {"hash": None}, 1: {"hash": "h2"}}),
+    ("unquoted-backslash-before-semicolon", "By=a\\;Hash=h1", 1, {0: {"hash": "h1"}}),
 ]
 
 THREE = 'Hash=h1;Subject="CN=first";URI=u1;DNS=d1;By=b1,Hash=h2;Subject="CN=middle";URI=u2;DNS=d2;By=b2,Hash=h3;Subject="CN=last";URI=u3;DNS=d3;By=b3'
@@ -64,6 +67,7 @@ PROXY_ELEMENT = 'Hash=hp;Subject="CN=real-client"'
 INJECTIONS = [
     ("open-quote-in-trailing-pair", 'Subject="CN=admin";By="'),
     ("open-quote-in-subject", 'Hash=x;Subject="CN=admin'),
+    ("trailing-unquoted-backslash", 'Subject="CN=admin";URI=spiffe://x/\\'),
 ]
 
 
